@@ -23,3 +23,14 @@ pub fn point(role: &'static str, access: &'static str, value: i64) {
         hook(role, access, value);
     }
 }
+
+static LAST_ERROR: std::sync::Mutex<String> = std::sync::Mutex::new(String::new());
+
+/// Remembers the text of the most recent compilation error (for diagnostics in the harness).
+pub fn set_last_error(text: String) {
+    *LAST_ERROR.lock().unwrap() = text;
+}
+
+pub fn last_error() -> String {
+    LAST_ERROR.lock().unwrap().clone()
+}
